@@ -36,6 +36,7 @@ import (
 	"strings"
 	"time"
 
+	"github.com/gogo/protobuf/proto"
 	"github.com/pingcap/kvproto/pkg/metapb"
 	"github.com/pingcap/kvproto/pkg/pdpb"
 	"go.etcd.io/etcd/clientv3"
@@ -59,19 +60,20 @@ var unaryRPCs = []string{
 	"GetRegion", "GetPrevRegion", "GetRegionByID", "ScanRegions", "AskSplit", "AskBatchSplit",
 	"ReportSplit", "ReportBatchSplit", "GetClusterConfig", "PutClusterConfig", "ScatterRegion",
 	"GetGCSafePoint", "UpdateGCSafePoint", "UpdateServiceGCSafePoint", "GetOperator", "SplitRegions",
-	"GetMembers",
+	"GetMembers", "PutClusterConfig", "PutClusterConfig",
 }
 
 // RPCs that allocate ids when they are served.
 var allocating = map[string]bool{"AllocID": true, "AskSplit": true, "AskBatchSplit": true}
 
 type RStep struct {
-	K   string `json:"k"`             // unary | tso | hb | sync
+	K   string `json:"k"`             // unary | tso | hb | sync | reelect (leader steps down, is re-elected, identity is checked)
 	RPC string `json:"rpc,omitempty"` // unary: which
 	S   int    `json:"s,omitempty"`   // stream index (0..1) within its kind
 	ID  int    `json:"id,omitempty"`  // 0 right, 1 right+1, 2 zero, 3 random (Rnd), 4 no header
 	Rnd uint64 `json:"rnd,omitempty"`
 	N   int    `json:"n,omitempty"` // tso: count
+	P   int    `json:"p,omitempty"` // PutClusterConfig payload: 0 own cluster id, 1 foreign id, 2 zero id, 3 no cluster at all
 }
 
 type RefCase struct {
@@ -81,6 +83,7 @@ type RefCase struct {
 func genRefusal(t *rapid.T) RefCase {
 	var c RefCase
 	n := rapid.IntRange(4, 14).Draw(t, "nsteps")
+	reelected := false
 	for i := 0; i < n; i++ {
 		var st RStep
 		switch k := rapid.IntRange(0, 19).Draw(t, "kind"); {
@@ -102,7 +105,18 @@ func genRefusal(t *rapid.T) RefCase {
 				st.Rnd = rapid.Uint64().Draw(t, "rnd")
 			}
 		}
+		if st.RPC == "PutClusterConfig" {
+			st.P = rapid.IntRange(0, 3).Draw(t, "payload")
+		}
 		c.Steps = append(c.Steps, st)
+		// the identity must survive a leader change: mostly right after a cluster-config request
+		if st.RPC == "PutClusterConfig" && !reelected && rapid.IntRange(0, 3).Draw(t, "reelect") == 3 {
+			c.Steps = append(c.Steps, RStep{K: "reelect"})
+			reelected = true
+		}
+	}
+	if !reelected && rapid.IntRange(0, 5).Draw(t, "reelectAtEnd") == 5 {
+		c.Steps = append(c.Steps, RStep{K: "reelect"})
 	}
 	return c
 }
@@ -140,6 +154,7 @@ func (f *liveFix) prepareRefusal() error {
 	if err != nil || resp.GetHeader().GetError() != nil {
 		return fmt.Errorf("bootstrap of the refusal fixture: %v %v", err, resp.GetHeader().GetError())
 	}
+	f.refMeta = &metapb.Cluster{Id: svr.ClusterID(), MaxPeerCount: uint32(svr.GetPersistOptions().GetMaxReplicas())}
 	if f.conn == nil {
 		dctx, dcancel := context.WithTimeout(context.Background(), 15*time.Second)
 		defer dcancel()
@@ -148,6 +163,13 @@ func (f *liveFix) prepareRefusal() error {
 			return err
 		}
 		f.conn = conn
+	}
+	if f.own == nil {
+		own, err := clientv3.New(clientv3.Config{Endpoints: []string{svr.GetAddr()}, DialTimeout: 15 * time.Second})
+		if err != nil {
+			return err
+		}
+		f.own = own
 	}
 	// one applied heartbeat: the region syncer's change log is no longer empty
 	r := &refRun{f: f, cli: pdpb.NewPDClient(f.conn), cid: svr.ClusterID(), streams: map[string]*rstream{}}
@@ -191,6 +213,9 @@ type refRun struct {
 	version uint64 // model of the served epoch version of the region
 	gcSafe  uint64
 	seq     int
+	refused bool            // the last unary request was refused (gRPC error or error header)
+	putCfg  *metapb.Cluster // the last unary request was an accepted PutClusterConfig with this payload
+	meta    *metapb.Cluster // model: the cluster meta fixed at bootstrap + accepted config changes
 	streams map[string]*rstream
 	info    *vkit.Info
 }
@@ -370,6 +395,88 @@ func (r *refRun) observe() ([]string, bool, error) {
 	return out, hasOp, nil
 }
 
+// dump reads the cluster's persisted records (cluster meta, bootstrap time, stores, regions: the key
+// <root>/raft and everything under <root>/raft/) through the harness' own etcd client, values included.
+func (r *refRun) dump() ([]string, *metapb.Cluster, error) {
+	root := path.Join(r.f.svr.GetServerRootPath(), "raft")
+	ctx, cancel := r.f.ctx()
+	defer cancel()
+	resp, err := r.f.own.Txn(ctx).Then(clientv3.OpGet(root), clientv3.OpGet(root+"/", clientv3.WithPrefix())).Commit()
+	if err != nil {
+		return nil, nil, err
+	}
+	var out []string
+	var meta *metapb.Cluster
+	for _, rr := range resp.Responses {
+		for _, kvp := range rr.GetResponseRange().Kvs {
+			out = append(out, fmt.Sprintf("persisted %s = %x (rev %d/%d)", kvp.Key, kvp.Value, kvp.CreateRevision, kvp.ModRevision))
+			if string(kvp.Key) == root {
+				meta = &metapb.Cluster{}
+				if err := meta.Unmarshal(kvp.Value); err != nil {
+					return nil, nil, fmt.Errorf("persisted cluster meta does not parse: %v", err)
+				}
+			}
+		}
+	}
+	sort.Strings(out)
+	return out, meta, nil
+}
+
+// identity: what is persisted and what is served is the identity fixed at bootstrap (+ accepted config).
+func (r *refRun) identity(when string) error {
+	_, stored, err := r.dump()
+	if err != nil {
+		return errInconclusive
+	}
+	if stored == nil || !proto.Equal(stored, r.meta) {
+		return fmt.Errorf("%s: the persisted cluster meta is %v, the cluster's identity is %v", when, stored, r.meta)
+	}
+	ctx, cancel := context.WithTimeout(context.Background(), 15*time.Second)
+	defer cancel()
+	h := &pdpb.RequestHeader{ClusterId: r.cid}
+	cfg, err := r.cli.GetClusterConfig(ctx, &pdpb.GetClusterConfigRequest{Header: h})
+	if isEnv(err) {
+		return errInconclusive
+	}
+	if err != nil || cfg.GetHeader().GetError() != nil || cfg.GetHeader().GetClusterId() != r.cid || !proto.Equal(cfg.GetCluster(), r.meta) {
+		return fmt.Errorf("%s: GetClusterConfig serves %v (header %v, error %v), the cluster's identity is %v", when, cfg.GetCluster(), cfg.GetHeader(), err, r.meta)
+	}
+	isb, err := r.cli.IsBootstrapped(ctx, &pdpb.IsBootstrappedRequest{Header: h})
+	if isEnv(err) {
+		return errInconclusive
+	}
+	if err != nil || !isb.GetBootstrapped() || isb.GetHeader().GetClusterId() != r.cid {
+		return fmt.Errorf("%s: IsBootstrapped answers %v (error %v), want bootstrapped with cluster id %d", when, isb, err, r.cid)
+	}
+	mem, err := r.cli.GetMembers(ctx, &pdpb.GetMembersRequest{Header: h})
+	if isEnv(err) {
+		return errInconclusive
+	}
+	if err != nil || mem.GetHeader().GetClusterId() != r.cid {
+		return fmt.Errorf("%s: GetMembers answers with header %v (error %v), want cluster id %d", when, mem.GetHeader(), err, r.cid)
+	}
+	return nil
+}
+
+// reelect: the leader steps down and is re-elected (the raft cluster is stopped and started again
+// from what is persisted); the new term must serve the identity fixed at bootstrap.
+func (r *refRun) reelect(what string) error {
+	r.closeStreams()
+	svr := r.f.svr
+	svr.GetMember().ResetLeader()
+	deadline := time.Now().Add(40 * time.Second)
+	for !(svr.GetMember().IsLeader() && svr.GetRaftCluster() != nil) {
+		if time.Now().After(deadline) {
+			return errInconclusive
+		}
+		time.Sleep(2 * time.Millisecond)
+	}
+	if svr.ClusterID() != r.cid {
+		return fmt.Errorf("%s: the server's cluster id changed from %d to %d", what, r.cid, svr.ClusterID())
+	}
+	return r.identity(what + ", new leader term")
+}
+
 func diff(a, b []string) string {
 	in := map[string]bool{}
 	for _, x := range a {
@@ -411,6 +518,7 @@ func (r *refRun) region(version uint64) *metapb.Region {
 func (r *refRun) unary(st RStep, what string) error {
 	h, right := r.header(st)
 	r.seq++
+	r.refused, r.putCfg = false, nil
 	ctx, cancel := context.WithTimeout(context.Background(), 15*time.Second)
 	defer cancel()
 	var err error
@@ -496,13 +604,32 @@ func (r *refRun) unary(st RStep, what string) error {
 		resp, err = c.GetClusterConfig(ctx, &pdpb.GetClusterConfigRequest{Header: h})
 		rh = resp.GetHeader()
 	case "PutClusterConfig":
-		mpc := uint32(3 + r.seq%3)
-		if !right {
+		mpc := uint32(3 + r.seq%5)
+		if !right || st.P != 0 {
 			mpc = uint32(90 + r.seq%9)
 		}
+		var cl *metapb.Cluster
+		switch st.P {
+		case 0:
+			cl = &metapb.Cluster{Id: r.cid, MaxPeerCount: mpc}
+		case 1:
+			cl = &metapb.Cluster{Id: r.cid ^ 0x2a2a, MaxPeerCount: mpc}
+		case 2:
+			cl = &metapb.Cluster{Id: 0, MaxPeerCount: mpc}
+		}
 		var resp *pdpb.PutClusterConfigResponse
-		resp, err = c.PutClusterConfig(ctx, &pdpb.PutClusterConfigRequest{Header: h, Cluster: &metapb.Cluster{Id: r.cid, MaxPeerCount: mpc}})
+		resp, err = c.PutClusterConfig(ctx, &pdpb.PutClusterConfigRequest{Header: h, Cluster: cl})
 		rh = resp.GetHeader()
+		if right && !isEnv(err) {
+			if st.P == 0 {
+				if err != nil || rh.GetError() != nil {
+					return fmt.Errorf("%s: a cluster config with the cluster's own id was not accepted: %v %v", what, err, rh.GetError())
+				}
+				r.putCfg = cl
+			} else if err == nil && rh.GetError() == nil {
+				return fmt.Errorf("%s: the payload carries cluster id %d (server has %d) and was accepted", what, cl.GetId(), r.cid)
+			}
+		}
 	case "ScatterRegion":
 		var resp *pdpb.ScatterRegionResponse
 		resp, err = c.ScatterRegion(ctx, &pdpb.ScatterRegionRequest{Header: h, RegionId: refRegion})
@@ -557,6 +684,7 @@ func (r *refRun) unary(st RStep, what string) error {
 	if right && isEnv(err) {
 		return errInconclusive
 	}
+	r.refused = err != nil || rh.GetError() != nil
 	if right && err == nil && rh.GetClusterId() != r.cid {
 		return fmt.Errorf("%s: response header carries cluster id %d, server has %d", what, rh.GetClusterId(), r.cid)
 	}
@@ -728,6 +856,7 @@ func runRefusal(c RefCase) (vkit.Info, error) {
 	r := &refRun{f: f, cli: pdpb.NewPDClient(f.conn), cid: f.svr.ClusterID(), streams: map[string]*rstream{}, info: &info}
 	defer r.closeStreams()
 	r.version = r.servedVersion()
+	r.meta = f.refMeta
 	if sp, err := f.svr.GetStorage().LoadGCSafePoint(); err == nil {
 		r.gcSafe = sp
 	}
@@ -739,6 +868,26 @@ func runRefusal(c RefCase) (vkit.Info, error) {
 		var before []string
 		var hadOp bool
 		var probe uint64
+		if st.K == "reelect" {
+			verr = r.reelect(what)
+			info.Class("reelect")
+			if verr == errInconclusive {
+				f.broken = true
+				info.Inconclusive = true
+				return info, nil
+			}
+			if verr != nil {
+				f.refReady = false
+				return info, verr
+			}
+			continue
+		}
+		persisted, _, err := r.dump()
+		if err != nil {
+			f.broken = true
+			info.Inconclusive = true
+			return info, nil
+		}
 		if !right {
 			nWrong++
 			if st.K == "unary" && allocating[st.RPC] {
@@ -770,6 +919,24 @@ func runRefusal(c RefCase) (vkit.Info, error) {
 				info.Class("sync-" + idClass(right))
 			}
 		}
+		// whatever the reason of a refusal (cluster id in the header, cluster id in the payload,
+		// anything else): a refused request changes nothing that is persisted about the cluster
+		if verr == nil && (!right || (st.K == "unary" && r.refused)) {
+			after, _, err := r.dump()
+			if err != nil {
+				verr = errInconclusive
+			} else if d := diff(persisted, after); d != "" {
+				verr = fmt.Errorf("%s was refused but changed what is persisted about the cluster: %s", what, d)
+			}
+			info.ClassIf(right, "refused-for-another-reason-"+st.RPC)
+		}
+		if verr == nil && st.K == "unary" && r.putCfg != nil {
+			// accepted cluster config: stored == served == request
+			r.meta = r.putCfg
+			f.refMeta = r.putCfg
+			verr = r.identity(what + " (accepted)")
+			info.Class("cluster-config-accepted")
+		}
 		if verr == nil && !right {
 			after, hasOp, err := r.observe()
 			if err != nil {
@@ -798,6 +965,15 @@ func runRefusal(c RefCase) (vkit.Info, error) {
 			return info, verr
 		}
 	}
+	if verr := r.identity("end of the program"); verr != nil {
+		if verr == errInconclusive {
+			f.broken = true
+			info.Inconclusive = true
+			return info, nil
+		}
+		f.refReady = false
+		return info, verr
+	}
 	info.NonTrivial = nRight > 0 && nWrong > 0
 	return info, nil
 }
@@ -812,7 +988,12 @@ func idClass(right bool) string {
 func describeStep(st RStep) string {
 	id := []string{"right id", "id+1", "id 0", fmt.Sprintf("random id %d", st.Rnd), "no header"}[st.ID]
 	switch st.K {
+	case "reelect":
+		return "leader step-down and re-election"
 	case "unary":
+		if st.RPC == "PutClusterConfig" {
+			return fmt.Sprintf("PutClusterConfig with %s in the payload (header: %s)", []string{"the cluster's own id", "a foreign cluster id", "cluster id 0", "no cluster"}[st.P], id)
+		}
 		return fmt.Sprintf("%s (%s)", st.RPC, id)
 	case "tso":
 		return fmt.Sprintf("Tso request, count %d, on stream %d (%s)", st.N, st.S, id)
